@@ -156,10 +156,11 @@ func ap2ints(ap []uint64) Ints {
 	return r
 }
 
-// ckInt refuses values TLC cannot represent.
+// ckInt maps values TLC cannot represent (>= 2^31) to -2: no in-domain input produces one, so the
+// specification's comparison reports it as a mismatch instead of the run being abandoned.
 func ckInt(x uint64) int {
 	if x >= 1<<31 {
-		panic(unrepresentable{x})
+		return -2
 	}
 	return int(x)
 }
@@ -208,6 +209,11 @@ func bmOf(xs []int) *roaring.Bitmap {
 		b.Add(uint32(x))
 	}
 	return b
+}
+
+func emptyObs() *Obs {
+	return &Obs{Fields: []B{}, DvF: []B{}, Dicts: []ODict{}, Posts: []OPost{}, Stored: []OStored{},
+		DocNums: []ODocNums{}, Dv: []ODv{}, Thes: []OThes{}, Vec: []OVec{}, VStats: []OVStat{}, Errs: []OErr{}, Sampled: []B{}}
 }
 
 // Observe projects seg.  Each aspect is guarded: an error or panic of an
